@@ -50,6 +50,11 @@ ModRec(mi) == input.mods[mi]
 (* (non-negative); definitions are registered unresolved, then the extern  *)
 (* types resolved.  add_item needs the parent module (always present) and  *)
 (* TypeRegistry::add overwrites an existing entry of the same path.        *)
+DupInModule(r, m) ==
+  LET names == [i \in DOMAIN m.defs |-> m.defs[i].name] \o [i \in DOMAIN m.exts |-> m.exts[i].name]
+  IN \/ \E i, j \in DOMAIN names : i # j /\ names[i] = names[j]
+     \/ \E i \in DOMAIN names : Has(r, Join(m.path, names[i]))
+
 AddModuleError(m) ==
   IF \E i \in DOMAIN m.evals : ~IsSome(m.evals[i].addr) THEN "extern-value-without-address"
   ELSE IF \E i \in DOMAIN m.exts : ~IsSome(m.exts[i].size) \/ ~IsSome(m.exts[i].align)
@@ -71,7 +76,8 @@ PutExts(r, mi, m, ei, n) ==
 
 AddModule(mi) ==
   LET m == ModRec(mi)
-      e == AddModuleError(m)
+      e == IF AddModuleError(m) # "" THEN AddModuleError(m)
+           ELSE IF CHECKDUP /\ DupInModule(reg, m) THEN "duplicate-definition" ELSE ""
       paths == {Join(m.path, m.defs[i].name) : i \in DOMAIN m.defs}
                  \cup {Join(m.path, m.exts[i].name) : i \in DOMAIN m.exts}
   IN /\ phase = "adding"
